@@ -148,6 +148,8 @@ class StmtMixin:
                 raise PyRaise('IndexError')
             items[ic] = v
             return
+        if base.k == 'obj' and '__store__' in self.st.heap[base.t].f:
+            base = self.st.heap[base.t].f['__store__']
         if base.k == 'dict':
             h = self.st.heap[base.t]
             try:
